@@ -23,9 +23,8 @@ def build(ub, algebra_text):
                                 ["let mut delete_list = vec![];", "let mut delete_list: Vec<usize> = vec![];"]]})
     # ---- operations of the summary that are NOT under contract (hash sets, iterator adapters, real BDD calls): the claim does not
     # cover them; their text is pinned so that a change is reported as undecided instead of passing silently
-    for fn_name, impl in (("apply_bin_op", "impl<V: Value> ValueSummary<V>"), ("new", "impl<V: Value> ValueSummary<V>"),
-                          ("apply_ite", "impl<V: Value + ToGuard> ValueSummary<V>"), ("to_guard", "impl<V: Value + ToGuard> ValueSummary<V>"),
-                          ("import_into_guard", "impl<V: Value + ToGuard> ValueSummary<V>")):
+    # (new, to_guard, import_into_guard and apply_ite are verified in unit dse_guard)
+    for fn_name, impl in (("apply_bin_op", "impl<V: Value> ValueSummary<V>"),):
         ub.pin_assumed_fn(VS, fn_name, impl, "not under contract (outside the dialect); pinned by hash")
     # ---- apply_ite: the merge loops
     import re
